@@ -76,6 +76,17 @@ from .c01glue import GlueH
 HARNESSES += [framed_shape(ShapeEvaluateH), framed_shape(ShapeNegateH), framed_shape(ShapeReduceH), framed_shape(ShapeJsonH),
               framed(ErrorsShapeH), framed(GlueH)]
 
+# readers / writers / solver routes: nothing reachable from the arguments and no module-level container, class-level container
+# or mutable default argument of the repository's modules may change (a class list extended in place by one reader changes
+# what every later reader sees)
+from .c16 import StingyRT, CcAnyRT, CcXorRT
+from .c04rules import CicJEH, JsonRecordH
+from .c14shape import DefaultsShapeH
+from .c15 import SolveBuiltinH
+from .c01glue import GlueReducedH
+HARNESSES += [framed(StingyRT), framed(CcAnyRT), framed(CcXorRT), framed(CicJEH), framed(JsonRecordH), framed(DefaultsShapeH),
+              framed(SolveBuiltinH), framed(GlueReducedH)]
+
 
 # ------------------------------------------------------------------------------------------------------------------
 # process-wide caches: key soundness (DESIGN 3.5: input-free obligation kind `cache-key`)
